@@ -45,11 +45,12 @@ const (
 	KTimerRecv
 	KSleep
 	KWgWait
+	KSelect
 	KDone
 )
 
 var kindNames = [...]string{"none", "start", "invoke", "load", "store", "cas", "add", "swap", "lock", "rlock",
-	"unlock", "runlock", "trylock", "tryrlock", "gosched", "timer", "sleep", "wgwait", "done"}
+	"unlock", "runlock", "trylock", "tryrlock", "gosched", "timer", "sleep", "wgwait", "select", "done"}
 
 func (k Kind) String() string { return kindNames[k] }
 
@@ -73,6 +74,7 @@ type Timer struct {
 	buffered bool
 	bufTime  int64
 	active   bool
+	armed    bool // will still fire (a one-shot timer is disarmed once it has fired)
 }
 
 const (
@@ -89,6 +91,9 @@ type thread struct {
 	addr      uintptr
 	lock      *LockModel
 	timer     *Timer
+	timers    []*Timer // simulated select: ready when any has a buffered tick
+	selDef    bool     // ... or when the select has a default clause
+	selIdx    int
 	wake      int64
 	spinEpoch uint64
 	burn      int
@@ -336,6 +341,74 @@ func YieldTimer(tm *Timer) (int64, bool) {
 	return tm.bufTime, true
 }
 
+type chanReg struct {
+	ch uintptr
+	tm *Timer
+}
+
+// chanRegs maps the real channel values the time shim hands out (ticker.C, time.After) to
+// their simulated timers.
+var chanRegs []chanReg
+
+//go:norace
+func RegisterChan(ch unsafe.Pointer, tm *Timer) {
+	if len(chanRegs) > 4096 {
+		chanRegs = chanRegs[:0]
+	}
+	chanRegs = append(chanRegs, chanReg{uintptr(ch), tm})
+}
+
+//go:norace
+func LookupChan(ch unsafe.Pointer) *Timer {
+	for i := len(chanRegs) - 1; i >= 0; i-- {
+		if chanRegs[i].ch == uintptr(ch) {
+			return chanRegs[i].tm
+		}
+	}
+	return nil
+}
+
+// YieldSelect parks the thread in a simulated select over timers; it returns the index of
+// the timer whose tick was taken (chosen by the environment PRNG among the ready ones, as
+// Go's select does), or -1 for the default clause.
+//
+//go:norace
+func YieldSelect(tms []*Timer, hasDefault bool) (int, int64) {
+	s := &S
+	if !s.active || s.kill {
+		return -1, s.clock
+	}
+	t := s.cur
+	th := &s.th[t]
+	th.pend = KSelect
+	th.addr = 0
+	th.timers = tms
+	th.selDef = hasDefault
+	s.turn = Ctl
+	waitTurn(t)
+	var ready [8]int
+	n := 0
+	for i, tm := range tms {
+		if tm != nil && tm.buffered && n < len(ready) {
+			ready[n] = i
+			n++
+		}
+	}
+	th.timers = nil
+	if n == 0 {
+		return -1, s.clock
+	}
+	i := ready[EnvN(n)]
+	tm := tms[i]
+	tm.buffered = false
+	if tm.period == 0 {
+		tm.active = false
+	}
+	th.hasRes = true
+	th.resVal = uint64(i)
+	return i, tm.bufTime
+}
+
 //go:norace
 func YieldSleep(d int64) {
 	s := &S
@@ -453,7 +526,7 @@ func NewTimer(d, period int64) *Timer {
 	if d <= 0 {
 		d = 1
 	}
-	tm := &Timer{next: s.clock + d, period: period, active: true}
+	tm := &Timer{next: s.clock + d, period: period, active: true, armed: true}
 	if s.active {
 		s.timers = append(s.timers, tm)
 	}
@@ -473,6 +546,7 @@ func (tm *Timer) Reset(d int64) {
 		tm.period = d
 	}
 	tm.active = true
+	tm.armed = true
 }
 
 func threadMain(t int, body func(int)) {
@@ -541,6 +615,16 @@ func (s *Sim) canRun(t int) bool {
 		return th.timer.buffered
 	case KSleep:
 		return s.clock >= th.wake
+	case KSelect:
+		if th.selDef {
+			return true
+		}
+		for _, tm := range th.timers {
+			if tm.buffered {
+				return true
+			}
+		}
+		return false
 	}
 	return true
 }
@@ -551,7 +635,7 @@ func (s *Sim) canRun(t int) bool {
 func (s *Sim) nextDeadline() int64 {
 	best := int64(-1)
 	for _, tm := range s.timers {
-		if tm.active && (best < 0 || tm.next < best) {
+		if tm.active && tm.armed && (best < 0 || tm.next < best) {
 			best = tm.next
 		}
 	}
@@ -570,13 +654,13 @@ func (s *Sim) advance(to int64) {
 		s.clock = to
 	}
 	for _, tm := range s.timers {
-		for tm.active && tm.next <= s.clock {
+		for tm.active && tm.armed && tm.next <= s.clock {
 			if !tm.buffered {
 				tm.buffered = true
 				tm.bufTime = tm.next
 			}
 			if tm.period == 0 {
-				tm.next = 1 << 62
+				tm.armed = false
 				break
 			}
 			tm.next += tm.period
@@ -604,7 +688,7 @@ func (s *Sim) dispatch(t int) {
 		}
 	case KGosched:
 		if th.spinEpoch == s.wEpoch {
-			th.burn++ // a retry that cannot observe anything new ("burning" attempts);
+			th.burn++     // a retry that cannot observe anything new ("burning" attempts);
 			s.res.Burns++ // the budget is per run and never refilled
 			s.burner = t
 		}
@@ -651,6 +735,7 @@ func Run(cfg Config, n int, body func(int)) Result {
 	s.turn = Ctl
 	s.cur = Ctl
 	s.burner = -1
+	chanRegs = chanRegs[:0]
 	s.active = true
 	for t := 0; t < n; t++ {
 		s.th[t].state = stParked
